@@ -126,7 +126,7 @@ def main():
                 g = gg.repair(n, raw)
                 if len(g) >= 2:
                     st = gg.STYLES[style % len(gg.STYLES)]
-                    named = gg.restyle(g, st, sweep._perm(len(g), key) if st in ("perm", "alpha", "gen", "zpad") else None)
+                    named = gg.restyle(g, st, sweep._perm(len(g), key) if st in ("perm", "alpha", "gen", "zpad", "words") else None)
                     col.count("origin_fuzz")
                     evaluate(col, g, named, "fuzz")
                 else:
